@@ -2320,6 +2320,183 @@ def check_factories(ck):
             ck.ob(rule, tag, True, "type-checks", None, None)
 
 
+def check_case_exclusive(ck):
+    """E13.case-exclusive: every case of the UzawaType switch in UzawaPrecond::apply() performs its own block solve only:
+    control does not fall from a non-empty case into the next one"""
+    rule = "E13.case-exclusive"
+    facts = featlib.extract("tu/c08_uzawa.cpp", files=featlib.repo_path(SOLVER) + "uzawa_precond.hpp", patterns=True)
+    ck.tu(facts)
+    for e in (facts.errors_in_repo() + facts.errors_outside_repo())[:3]:
+        ck.incomplete(rule, "tu/c08_uzawa.cpp does not compile: %s:%d %s" % (e["file"], e["line"], e["msg"][:200]))
+    n_sw = 0
+    seen = {}
+    for f in facts.functions:
+        if f.body is None or not re.match(r"FEAT::Solver::UzawaPrecond", f.cls or ""):
+            continue
+        sws = [n for n in walk(f.body) if n.get("k") == "Switch"]
+        if not sws:
+            continue
+        fts = norm_c08.switch_fallthroughs(f.body)
+        variant = "global" if "Global::Matrix" in f.cls else "local"
+        for sw in sws:
+            sel = render(strip(sw.get("c") or {}))
+            key = "UzawaPrecond[%s]::%s/switch(%s)" % (variant, f.name, sel)
+            seen[key] = seen.get(key, 0) + 1
+            if seen[key] > 1:
+                continue        # the same template seen as pattern and as instantiation
+            n_sw += 1
+            mine = [(a, b) for s_, a, b in fts if s_ is sw]
+            lab = lambda c: render(strip(c.get("v") or {})) if c.get("k") == "Case" else "default"
+            ck.ob(rule, key, not mine,
+                  "every non-empty case ends in break / return" if not mine else
+                  "; ".join("`case %s` (line %s) falls through into `case %s` (line %s): for %s the block solves of both cases are executed, the second overwriting the result of the first" % (
+                      lab(a), a.get("l"), lab(b), b.get("l"), lab(a)) for a, b in mine), f.file, (mine[0][0] if mine else sw).get("l"))
+    if not n_sw:
+        ck.incomplete(rule, "no switch found in UzawaPrecond::apply (kernel/solver/uzawa_precond.hpp)")
+
+
+STATUS_OK = ("success", "max_iter", "stagnated")      # status_success() of kernel/solver/base.hpp
+
+
+def check_status_filter(ck):
+    """E7.status-filter (SchwarzPrecond<Global::Vector, Global::Filter>::apply): on every path on which the returned status
+    may satisfy status_success(), the correction was synchronised (sync_1) and filter_cor-ed.  The returned status variable is
+    followed over the CFG with the abstract values {success, other-ok (max_iter / stagnated), failure}; assignments of
+    enumerators / ternaries of enumerators, tests `status == Status::X`, `status != X` and `status_success(status)` refine it."""
+    rule = "E7.status-filter"
+    facts = featlib.extract("tu/c08_schwarz.cpp", files=featlib.repo_path(SOLVER) + "schwarz_precond.hpp")
+    ck.tu(facts)
+    for e in (facts.errors_in_repo() + facts.errors_outside_repo())[:3]:
+        ck.incomplete(rule, "driver TU tu/c08_schwarz.cpp does not compile: %s:%d %s" % (e["file"], e["line"], e["msg"][:200]))
+    inl = norm_c08.Inliner(facts)
+    aps = [f for f in facts.functions if f.tk != "pattern" and f.name == "apply" and re.match(r"FEAT::Solver::SchwarzPrecond<", f.cls) and len(f.params) == 2]
+    if not aps:
+        ck.incomplete(rule, "no instantiation of SchwarzPrecond::apply found")
+    ALL = frozenset(("success", "ok2", "fail"))
+
+    def cls_of(view, n):
+        """abstract value set of a status-typed expression"""
+        n = view.value(n)
+        if n.get("k") == "Ref" and n.get("dk") == "enum":
+            nm = (n.get("qn") or n.get("n") or "").rsplit("::", 1)[-1]
+            return frozenset(["success"]) if nm == "success" else (frozenset(["ok2"]) if nm in STATUS_OK else frozenset(["fail"]))
+        if n.get("k") == "Cond":
+            return cls_of(view, n["then"]) | cls_of(view, n["else"])
+        return ALL
+    for f0 in aps:
+        f = inl.inline(f0, want=lambda call, cal: cal.name not in ANCHORED)
+        view = FnView(f)
+        inst = "SchwarzPrecond<Global::Vector>"
+        out_d = alias_set(view, f.params[0]["d"])
+        rets = [n for n in walk(f.body) if n.get("k") == "Return" and n.get("e") is not None]
+        svars = {view.value(r["e"]).get("d") for r in rets if view.value(r["e"]).get("k") == "Ref" and view.value(r["e"]).get("dk") == "local"}
+        if len(svars) != 1 or None in svars or any(not (view.value(r["e"]).get("k") == "Ref") for r in rets):
+            ck.incomplete(rule, "%s: apply() does not return one local status variable" % inst)
+            continue
+        sd = svars.pop()
+
+        def is_s(n):
+            n = strip(n)
+            return n.get("k") == "Ref" and n.get("d") == sd
+
+        def refine(atom, truth, vals):
+            a = strip(atom)
+            while a.get("k") == "Un" and a.get("op") == "!":
+                truth = not truth
+                a = strip(a["e"])
+            if a.get("k") == "Bin" and a.get("op") in ("==", "!="):
+                for x, y in ((a["lhs"], a["rhs"]), (a["rhs"], a["lhs"])):
+                    if is_s(x):
+                        c = cls_of(view, y)
+                        if len(c) == 1:
+                            eq = (a["op"] == "==") == truth
+                            only = next(iter(c))
+                            if eq:
+                                return vals & c
+                            # != X excludes X only if the class is a single enumerator (success); ok2 / fail are several
+                            return vals - c if only == "success" else vals
+            if a.get("k") == "Call" and (a.get("callee") or "").endswith("status_success") and a.get("a") and is_s(a["a"][0]):
+                return vals & (frozenset(["success", "ok2"]) if truth else frozenset(["fail"]))
+            return vals
+
+        def assumed(atom):
+            """conditions the rule assumes: a Global::Vector has a communicator (get_comm() != nullptr)"""
+            a = strip(atom)
+            neg = False
+            while a.get("k") == "Un" and a.get("op") == "!":
+                neg = not neg
+                a = strip(a["e"])
+            if a.get("k") == "Bin" and a.get("op") in ("!=", "=="):
+                for x, y in ((a["lhs"], a["rhs"]), (a["rhs"], a["lhs"])):
+                    xv = view.value(x)
+                    if strip(y).get("k") == "Null" and xv.get("k") == "MCall" and xv.get("n") == "get_comm":
+                        return (a["op"] == "!=") != neg
+            return None
+        cfg = view.cfg
+        work = [(cfg.entry, ALL, False, False)]
+        seen = set()
+        bad = None
+        unknown = None
+        normal = set(cfg.normal_exit_preds())
+        while work:
+            b, vals, synced, filtered = work.pop()
+            if (b, vals, synced, filtered) in seen or not vals:
+                continue
+            seen.add((b, vals, synced, filtered))
+            blk = cfg.blocks[b]
+            for e in blk["el"]:
+                n = view.byid.get(e)
+                if n is None:
+                    continue
+                k = n.get("k")
+                if k == "Decl":
+                    for var in n.get("vars", []):
+                        if var.get("d") == sd:
+                            vals = cls_of(view, var["init"]) if var.get("init") is not None else ALL
+                elif k == "Assign" and is_s(n["lhs"]):
+                    vals = cls_of(view, n["rhs"]) if n.get("op") == "=" else ALL
+                elif k == "MCall" and n.get("n") == "sync_1" and strip(n.get("obj") or {}).get("d") in out_d:
+                    synced = True
+                elif k == "MCall" and n.get("n") == "filter_cor" and pcsym.this_field(view.value(n.get("obj") or {})) == "_filter" and n.get("a") and strip(n["a"][0]).get("d") in out_d:
+                    filtered = True
+                elif k in ("MCall", "Call") and not (n.get("callee") or "").startswith("std::") and any(
+                        strip(a).get("k") == "Ref" and strip(a).get("d") == sd and "&" in f.type((n.get("pt") or [0] * 9)[i_]) and "&&" not in f.type((n.get("pt") or [0] * 9)[i_])
+                        and not f.type((n.get("pt") or [0] * 9)[i_]).strip().startswith("const ") for i_, a in enumerate(n.get("a", [])) if i_ < len(n.get("pt") or [])):
+                    vals = ALL      # the status variable is handed to a repo function by non-const reference
+                elif k in ("MCall", "Call") and (n.get("obj") is None or strip(n.get("obj") or {}).get("k") == "This") and k == "MCall" and not n.get("cconst") and n.get("n") not in ("name",):
+                    unknown = "call of the member function %s() (line %s)" % (n.get("n"), n.get("l"))
+            if blk.get("noreturn"):
+                continue
+            succ = view.raw_succ(b)
+            atom = view.branch_atom(b) if len(succ) == 2 and blk.get("cond") is not None and blk.get("term") != "SwitchStmt" else None
+            for idx, t in enumerate(succ):
+                if t is None:
+                    continue
+                v2 = vals
+                if atom is not None:
+                    asm = assumed(atom)
+                    if asm is not None and asm != (idx == 0):
+                        continue
+                    v2 = refine(atom, idx == 0, vals)
+                if t == cfg.exit:
+                    if b in normal and (v2 & frozenset(["success", "ok2"])) and not (synced and filtered) and bad is None:
+                        bad = (v2, synced, filtered)
+                    continue
+                work.append((t, v2, synced, filtered))
+        if bad is None and unknown:
+            ck.incomplete(rule, "%s: %s, whose effect on the status / the correction is not modelled" % (inst, unknown))
+            continue
+        if bad is not None and unknown:
+            ck.incomplete(rule, "%s: a path returns a successful status without sync_1 + filter_cor, but apply() contains the %s, which is not modelled" % (inst, unknown))
+            continue
+        ck.ob(rule, inst, bad is None,
+              "every path that can return success / max_iter / stagnated has synchronised (sync_1) and filter_cor-ed the correction" if bad is None else
+              "apply() can return a status for which status_success() holds (%s) on a path that skipped %s: the caller takes the correction as valid, but it is %s" % (
+                  ", ".join(sorted({"success": "success", "ok2": "max_iter / stagnated"}.get(x, x) for x in bad[0] if x != "fail")),
+                  " and ".join(w for w, done_ in (("sync_1()", bad[1]), ("filter_cor()", bad[2])) if not done_),
+                  "the unsynchronised, unfiltered local correction"), f.file, f.line)
+
+
 def check_factory_forwarding(ck):
     """E1.factory-forwards: every documented new_*_precond factory uses each of its parameters and hands it to the constructor
     parameter of its own name"""
@@ -2358,6 +2535,8 @@ def check_factory_forwarding(ck):
 def run(tier):
     ck = Check("C08", tier)
     ck.rule("E0.factory-instantiable", "every documented new_*_precond factory overload (direct and PropertyMap based) can be instantiated for CSR/BCSR double matrices; an overload that does not compile cannot apply any operator", 14)
+    ck.rule("E7.status-filter", "SchwarzPrecond<Global::Vector, Global::Filter>::apply(): on every path on which the returned status may be one for which status_success() holds (success, max_iter, stagnated) the correction was synchronised (sync_1) and passed through _filter.filter_cor(); decided by following the returned status variable over the CFG with the values {success, max_iter/stagnated, failure} (assignments of enumerators and ternaries, tests == / != / status_success refine it); assumes the vector has a communicator; breaks when the local solver stops with max_iter / stagnated: callers accept the status, the correction is the unsynchronised, unfiltered local one", 1)
+    ck.rule("E13.case-exclusive", "UzawaPrecond::apply() (local and global variant): each case of the switch over the Uzawa type (diagonal / lower / upper / full) performs its own documented sequence of block solves only: control never falls from a non-empty case into the next label (decided on the statement structure of the class templates as written); breaks for the type whose case lost its break: the next case's solves overwrite pressure and velocity", 2)
     ck.rule("E1.factory-forwards", "every documented new_*_precond factory uses each of its parameters (matrix, filter, omega, fill level, degree, section) and hands it, positionally, to the constructor parameter of its own name: a dropped argument is silently replaced by the constructor's default (e.g. omega = 1), two same-typed arguments in exchanged slots configure the wrong quantity; breaks for every non-default value of the dropped / misplaced parameter", 14)
     ck.rule("E2.sweep-triangular", "SOR/SSOR row sweeps: forward loop runs over row_ptr[i].. while col_ind[k] < i, backward over ..row_ptr[i+1]-1 while col_ind[k] > i, accumulates val[k]*out[col_ind[k]] (output read only at rows already updated in this sweep), divides by val[] at the stopping position (the diagonal), writes out[i] once; breaks for every matrix with off-diagonal entries (e.g. '>=' adds the diagonal term and runs past it)", 6)
     ck.rule("E6.sweep-form", "row update of each sweep as an algebraic normal form: SOR out_i = w D^-1 (b_i - S), SSOR forward out_i = D^-1 (b_i - w S), backward out_i -= w D^-1 S (block versions with the inverse applied from the left); SOR has one forward sweep, SSOR forward then backward; breaks for every omega != 1", 10)
@@ -2479,6 +2658,8 @@ def run(tier):
         ck.incomplete("E7.filter-follows", "no instantiation of the %s preconditioner found" % k)
     check_factories(ck)
     check_factory_forwarding(ck)
+    check_case_exclusive(ck)
+    check_status_filter(ck)
     # Vanka: local matrices gathered into a dense array
     vfacts = featlib.extract("tu/c08_vanka.cpp", files=featlib.repo_path(SOLVER) + "vanka.hpp")
     ck.tu(vfacts)
@@ -2512,6 +2693,7 @@ def run(tier):
         check_scratch_reset(ck, afacts, cand[0], ainst, ainl)
 
     ck.assume("matrices are well formed CSR/BCSR with sorted column indices and a stored non-zero diagonal entry in every row (documented requirement of SOR/SSOR/ILU)")
+    ck.assume("SchwarzPrecond: a Global::Vector handed to apply() has a communicator (get_comm() != nullptr); on the gate-less path the status of the local solver is returned as is (not decided)")
     ck.assume("filter_def/filter_cor are treated as identities in the operator forms; their placement is decided by E7.filter-follows")
     return ck.finish(
         "Resolved bodies of the stationary preconditioners (Jacobi, SOR, SSOR, ILU, Polynomial, Scale, Diagonal, Matrix) instantiated over CSR and BCSR "
